@@ -2,7 +2,7 @@
    safe.  Statements only: each theorem is closed by [exact], pinned by [Check]
    and followed by [Print Assumptions]. *)
 From Coq Require Import List ZArith NArith Bool.
-From RB Require Import Base.Val Model.Api Spec.ApiSpec Proofs.ApiRt Proofs.ApiNlri Proofs.ApiEvpn Proofs.ApiGuard Proofs.Api.
+From RB Require Import Base.Val Model.Api Spec.ApiSpec Proofs.ApiRt Proofs.ApiNlri Proofs.ApiEvpn Proofs.ApiGuard Proofs.ApiX Proofs.Api.
 Import ListNotations.
 Open Scope N_scope.
 
@@ -243,3 +243,66 @@ Check noncore_typed_from_api_wf :
     (forall b, bytes_of_typed c t = Ok (Some b) -> bytes_ok b) ->
     from_api_nc bytes_of_typed (NcTyped c t) = Ok (Some a) -> wf_attr a.
 Print Assumptions noncore_typed_from_api_wf.
+
+(* (17) Flowspec (IPv4 / IPv6, plain and VPN): net_from_api of the API form of a well-formed
+   flowspec NLRI gives the NLRI back (prefix components, operator lists with their framing bits,
+   route distinguisher). *)
+Theorem flowspec_roundtrip :
+  forall (v6p : N -> list N) (v6r : list N -> option N) (n : fs_nlri),
+    v6_contract v6p v6r -> wf_fs n ->
+    fs_from_api v6r (fs_family n) (fs_to_api v6p n) = Some n.
+Proof. exact C17_flowspec_roundtrip. Qed.
+Check flowspec_roundtrip :
+  forall (v6p : N -> list N) (v6r : list N -> option N) (n : fs_nlri),
+    v6_contract v6p v6r -> wf_fs n ->
+    fs_from_api v6r (fs_family n) (fs_to_api v6p n) = Some n.
+Print Assumptions flowspec_roundtrip.
+
+(* (18) A flowspec NLRI accepted from the API is one the flowspec decoder can produce: prefix
+   lengths within the address, zero octets beyond them, non-empty operator lists ending in the
+   end-of-list bit and free of length bits, at most 4095 octets of components. *)
+Theorem flowspec_from_api_preserves_wf :
+  forall (v6r : list N -> option N) (family : N) (x : api_fs) (n : fs_nlri),
+    v6_range v6r -> api_fs_in_range x -> fs_from_api v6r family x = Some n -> wf_fs n.
+Proof. exact C17_flowspec_from_api_preserves_wf. Qed.
+Check flowspec_from_api_preserves_wf :
+  forall (v6r : list N -> option N) (family : N) (x : api_fs) (n : fs_nlri),
+    v6_range v6r -> api_fs_in_range x -> fs_from_api v6r family x = Some n -> wf_fs n.
+Print Assumptions flowspec_from_api_preserves_wf.
+
+(* (19) SR Policy NLRI: round trip of every well-formed value, and an accepted message yields a
+   well-formed value. *)
+Theorem srpolicy_roundtrip_and_wf :
+  (forall n, wf_srp n -> srp_from_api (srp_to_api n) = Some n)
+  /\ (forall l d c e n, u32_ok d -> u32_ok c -> bytes_ok e -> srp_from_api (ASrP l d c e) = Some n -> wf_srp n).
+Proof. exact C17_srpolicy_roundtrip_and_wf. Qed.
+Check srpolicy_roundtrip_and_wf :
+  (forall n, wf_srp n -> srp_from_api (srp_to_api n) = Some n)
+  /\ (forall l d c e n, u32_ok d -> u32_ok c -> bytes_ok e -> srp_from_api (ASrP l d c e) = Some n -> wf_srp n).
+Print Assumptions srpolicy_roundtrip_and_wf.
+
+(* (20) Route Target Constraint NLRI outside the class of the open finding C17-rtc (origin AS 0
+   with any target; a target that is not type 0/1/2 with sub-type 2): the round trip is the identity. *)
+Theorem rtc_roundtrip_outside_known :
+  forall n : rtc, wf_rtc n -> ~ Known_C17_rtc n -> rtc_from_api (rtc_to_api n) = Some n.
+Proof. exact C17_rtc_roundtrip_outside_known. Qed.
+Check rtc_roundtrip_outside_known :
+  forall n : rtc, wf_rtc n -> ~ Known_C17_rtc n -> rtc_from_api (rtc_to_api n) = Some n.
+Print Assumptions rtc_roundtrip_outside_known.
+
+(* (21) ... and inside that class it is not: the 32-bit form with origin AS 0 comes back as the
+   default membership. *)
+Theorem rtc_roundtrip_refuted :
+  exists n : rtc, wf_rtc n /\ Known_C17_rtc n /\ rtc_from_api (rtc_to_api n) <> Some n.
+Proof. exact C17_rtc_roundtrip_refuted. Qed.
+Check rtc_roundtrip_refuted :
+  exists n : rtc, wf_rtc n /\ Known_C17_rtc n /\ rtc_from_api (rtc_to_api n) <> Some n.
+Print Assumptions rtc_roundtrip_refuted.
+
+(* (22) An RTC NLRI accepted from the API is well-formed (eight-octet target). *)
+Theorem rtc_from_api_preserves_wf :
+  forall (a : N) (rt : option api_rt) (n : rtc), u32_ok a -> rtc_from_api (ARtc a rt) = Some n -> wf_rtc n.
+Proof. exact C17_rtc_from_api_preserves_wf. Qed.
+Check rtc_from_api_preserves_wf :
+  forall (a : N) (rt : option api_rt) (n : rtc), u32_ok a -> rtc_from_api (ARtc a rt) = Some n -> wf_rtc n.
+Print Assumptions rtc_from_api_preserves_wf.
